@@ -21,7 +21,11 @@ EXTENDS Naturals, Integers, Sequences, FiniteSets, TLC
 CONSTANTS S,
           Inc          \* the value of includeDeprecated given to fields / args / inputFields / enumValues
 NULL == "<null>"                        \* an absent string
-None == [null |-> TRUE, v |-> <<>>]     \* an absent object or list (TLC cannot compare a string with a record)
+\* an absent list / object: the placeholder has the SHAPE of what it stands for (a sequence, a record), because TLC
+\* raises an evaluation error, not FALSE, when it compares a record with a sequence or a string
+None == [null |-> TRUE, v |-> <<>>]
+NoneRec == [null |-> TRUE, v |-> [absent |-> TRUE]]
+NoneSet == [null |-> TRUE, v |-> {}]
 Opt(x) == [null |-> FALSE, v |-> x]
 BuiltinScalars == {"Int", "Float", "String", "Boolean", "ID"}
 IntrospectionKinds == [n \in {"__Schema", "__Type", "__Field", "__InputValue", "__EnumValue", "__Directive"} |-> "OBJECT"]
@@ -34,7 +38,7 @@ KindOf(n) == IF n \in BuiltinScalars THEN "SCALAR"
              ELSE TypeNamed(n).kind
 
 RECURSIVE TypeRef(_)
-TypeRef(t) == CASE t[1] = "named" -> [kind |-> KindOf(t[2]), name |-> t[2], ofType |-> None]
+TypeRef(t) == CASE t[1] = "named" -> [kind |-> KindOf(t[2]), name |-> t[2], ofType |-> NoneRec]
                 [] t[1] = "list" -> [kind |-> "LIST", name |-> NULL, ofType |-> Opt(TypeRef(t[2]))]
                 [] OTHER -> [kind |-> "NON_NULL", name |-> NULL, ofType |-> Opt(TypeRef(t[2]))]
 RECURSIVE NamedOf(_)
@@ -91,11 +95,11 @@ TypeEntry(t) ==
    inputFields |-> IF t.kind = "INPUT_OBJECT" THEN Opt([k \in 1..Len(Keep(t.inputFields)) |-> InputValue(Keep(t.inputFields)[k])]) ELSE None,
    interfaces |-> IF t.kind \in {"OBJECT", "INTERFACE"} THEN Opt([k \in 1..Len(t.interfaces) |-> Named(t.interfaces[k])]) ELSE None,
    enumValues |-> IF t.kind = "ENUM" THEN Opt([k \in 1..Len(Keep(t.values)) |-> EnumValue(Keep(t.values)[k])]) ELSE None,
-   possibleTypes |-> IF t.kind \in {"INTERFACE", "UNION"} THEN Opt(PossibleTypes(t)) ELSE None]
+   possibleTypes |-> IF t.kind \in {"INTERFACE", "UNION"} THEN Opt(PossibleTypes(t)) ELSE NoneSet]
 
 \* the same entry read from a response (possibleTypes as a set, duplicates are an error)
 NoDupSeq(s) == Cardinality(Range(s)) = Len(s)
-ReadEntry(r) == [r EXCEPT !.possibleTypes = IF r.possibleTypes.null THEN None ELSE Opt(Range(r.possibleTypes.v))]
+ReadEntry(r) == [r EXCEPT !.possibleTypes = IF r.possibleTypes.null THEN NoneSet ELSE Opt(Range(r.possibleTypes.v))]
 EntryMatches(r, t) == ReadEntry(r) = TypeEntry(t) /\ (~r.possibleTypes.null => NoDupSeq(r.possibleTypes.v))
 
 \* which built-in scalars the reference lists: String and Boolean always (the introspection types use them),
@@ -163,10 +167,11 @@ DirectiveProblems(r, d) ==
   ELSE IF [r EXCEPT !.args = MaskIVs(@)] = [e EXCEPT !.args = MaskIVs(@)] THEN DefaultDiffs("@" \o d.name, r.args, Keep(d.args))
   ELSE {<<"directive-entry", d.name>>}
 
-RootRef(n) == IF n = "" THEN None ELSE Opt([name |-> n])
+RootRef(n) == IF n = "" THEN NoneRec ELSE Opt([name |-> n])
 
 \* ---- the whole comparison; Problems(resp) is the set of named disagreements ------------------------------------
-Sel(name, cond) == IF cond THEN {} ELSE {name}
+\* every problem is a tuple (TLC cannot hold strings and tuples in one set)
+Sel(name, cond) == IF cond THEN {} ELSE {<<name, "-">>}
 Problems(resp) ==
   LET names == [k \in 1..Len(resp.types) |-> resp.types[k].name]
       dnames == [k \in 1..Len(resp.directives) |-> resp.directives[k].name]
